@@ -3,6 +3,7 @@ package engine
 import (
 	"github.com/akalin/gopar/par1"
 	"github.com/akalin/gopar/par2"
+	"sync"
 
 	"verifsim/simdisk"
 )
@@ -24,8 +25,14 @@ type recorder struct {
 	ev   *[]DelegateEvent
 }
 
+// delegates may be called from any goroutine of the code under test
+var recorderMu sync.Mutex
+
 func (rc recorder) add(op byte, path string, err error) {
-	*rc.ev = append(*rc.ev, DelegateEvent{Op: op, Path: path, OK: err == nil, Call: rc.disk.OpCalls()})
+	n := rc.disk.OpCalls()
+	recorderMu.Lock()
+	*rc.ev = append(*rc.ev, DelegateEvent{Op: op, Path: path, OK: err == nil, Call: n})
+	recorderMu.Unlock()
 }
 
 type recDecoder2 struct {
